@@ -118,6 +118,10 @@ pub fn run(ctx: &Ctx) -> Value {
     let lim_pairs: Vec<(i128, i128)> = { let mut v = Vec::new();
         for a in [DUR_LIM, DUR_LIM - 1, DUR_LIM - NS + 1, DUR_LIM - NS, DUR_LIM - 500_000_000] { for b in [0i128, 1, 2, NS - 1, NS, 500_000_000, 192_999_999, 193_000_000, 193_000_001] {
             v.push((a, b)); v.push((-a, -b)); v.push((b, a)); v.push((a, -b)); v.push((-a, b)); } }
+        // whole-second operands around the range ends (the limits themselves are NOT whole seconds: +-9_223_372_036_854_775.807 s)
+        let w = DUR_LIM / NS * NS;
+        for a in [w, w - NS, w - 2 * NS] { for b in [0i128, NS, 2 * NS, 3 * NS, 1000 * NS] {
+            v.push((a, b)); v.push((-a, -b)); v.push((b, a)); v.push((-b, -a)); v.push((a, -b)); v.push((-a, b)); } }
         v };
     for (an, bn) in lim_pairs {
         let (a, b) = (mk_dur(an).unwrap(), mk_dur(bn).unwrap());
